@@ -12,6 +12,7 @@ mod coll;
 mod jwk;
 mod revocation;
 mod sdjwt;
+mod signing;
 mod ts;
 mod cred;
 mod did;
@@ -112,6 +113,7 @@ fn main() {
     "jwk" => jwk::jwk(&cex),
     "collections" => coll::collections(&cex),
     "storage_faults" => storage::faults(&cex),
+    "storage_signing" => signing::signing(&cex),
     "document_ops" => docops::document_ops(&cex),
     "kani" => kani_replay(&cex),
     "panic_sweep" => panic_sweep(),
@@ -158,6 +160,7 @@ fn panic_sweep() -> Result<String, String> {
     ("sd_jwt", sdjwt::sd_jwt),
     ("revocation", revocation::bitmap),
     ("jwk", jwk::jwk),
+    ("storage_signing", signing::signing),
     ("collections", coll::collections),
     ("document_ops", docops::document_ops),
     ("storage_faults", storage::faults),
